@@ -1,4 +1,5 @@
 import OdfProofs.Pretty
+import OdfProofs.Package5
 
 /-!
 # C11 — saving is neutral: pretty / packaging change layout only; save never edits memory
@@ -96,6 +97,56 @@ theorem pretty_then_plain (d : Doc) : (save false (save true d)).container = (sa
     · simp only [hc, and_self, if_true, true_and]
       cases hcp : d.container p <;> simp
     · simp [hc]
+
+/-! ## the pretty branch of `Document.save` on the package model (`OdfModel/Package.lean`: lazy container, manifest,
+manifest.rdf reconciliation, parsed parts) — `pp` is ANY pretty serialiser -/
+section package
+open Odf.Pkg
+
+/-- **what a pretty save writes**, name for name: what the plain save writes, passed through the pretty serialiser when the
+    part is parsed or is one of the four standard parts, untouched otherwise -/
+theorem pretty_save_writes (pp : Blob → Blob) (d : Pkg.Doc) (rdf : Blob) (h : WFd d) (m : Nat) :
+    look (d.savePretty pp rdf).2 m =
+      if (look (d.prepared rdf).parsed m).isSome ∨ m ∈ Pkg.stdParts then (look (d.save rdf).2 m).map pp
+      else look (d.save rdf).2 m := by
+  rw [savePretty_written pp d rdf h m, save_written d rdf h m]
+
+/-- **packaging / pretty change the layout only — never the list of parts**: a name is written by the pretty save exactly
+    when the plain save writes it (no part is lost, none is invented: an optional part the package does not have stays absent) -/
+theorem pretty_save_same_parts (pp : Blob → Blob) (d : Pkg.Doc) (rdf : Blob) (h : WFd d) (m : Nat) :
+    look (d.savePretty pp rdf).2 m = none ↔ look (d.save rdf).2 m = none := by
+  rw [pretty_save_writes pp d rdf h m]
+  split <;> simp
+
+/-- … and each part is the one the plain save writes, as it is or pretty-printed -/
+theorem pretty_save_layout_only (pp : Blob → Blob) (d : Pkg.Doc) (rdf : Blob) (h : WFd d) (m : Nat) (b : Blob)
+    (hb : look (d.save rdf).2 m = some b) :
+    look (d.savePretty pp rdf).2 m = some b ∨ look (d.savePretty pp rdf).2 m = some (pp b) := by
+  rw [pretty_save_writes pp d rdf h m, hb]
+  split <;> simp
+
+/-- pictures and every other part that is neither parsed nor standard are written byte for byte -/
+theorem pretty_save_other_parts_untouched (pp : Blob → Blob) (d : Pkg.Doc) (rdf : Blob) (h : WFd d) (m : Nat)
+    (hp : look (d.prepared rdf).parsed m = none) (hs : m ∉ Pkg.stdParts) :
+    look (d.savePretty pp rdf).2 m = look (d.save rdf).2 m := by
+  rw [pretty_save_writes pp d rdf h m]
+  simp [hp, hs]
+
+/-- with a serialiser that changes nothing the pretty save writes the plain save -/
+theorem pretty_save_with_identity (d : Pkg.Doc) (rdf : Blob) (h : WFd d) (m : Nat) :
+    look (d.savePretty id rdf).2 m = look (d.save rdf).2 m := by
+  rw [pretty_save_writes id d rdf h m]
+  split <;> simp
+
+/-! non-vacuity: a package opened by path WITHOUT settings.xml (name 4), a picture (name 9), content edited; `pp` marks what it
+    touches: content / meta / styles come out pretty, the picture and the mimetype as they are, settings.xml stays absent -/
+example :
+    let pp : Blob → Blob := fun b => match b with | .raw k => .raw (k + 100) | b => b
+    let d := (Pkg.Doc.ofPath [(0, .raw 1), (1, .man [(2, 1), (3, 1), (5, 1), (9, 2)]), (2, .raw 2), (3, .raw 3), (5, .raw 5), (9, .raw 9)]).edit 2 (.raw 7)
+    ((d.savePretty pp (.raw 66)).2.map (fun p => (p.1, match p.2 with | .raw k => k | .man _ => 0))) =
+      [(0, 1), (2, 107), (3, 103), (1, 0), (5, 105), (9, 9)] := by decide +kernel
+
+end package
 
 /-! non-vacuity: a paragraph ending with a text:s inside a note inside a paragraph -/
 example : wfB false (.node "office:text" 0 [] (.node "text:p" 1 "a ".toList
